@@ -33,7 +33,9 @@ def judge_table(req, impl, model, spec):
     cats = ["grouped" if "(grouped 1)" in req else "ungrouped"]
     if rej:
         cats.append("rejected")
-    return {"corr": corr, "oracle": True, "what": "", "key": None if rej else req, "cats": cats}
+    ok = impl != "PANIC"
+    what = "" if ok else "stepping with -d panicked on a program that runs without it"
+    return {"corr": corr, "oracle": ok, "what": what, "key": None if rej else req, "cats": cats}
 
 
 def judge_trace(req, impl, model, spec):
